@@ -36,6 +36,9 @@ func coreC10(tier string) []RunSpec {
 		out = append(out, RunSpec{Profile: "core:edge", Params: map[string]int{"edge": 1, "k": k}})
 	}
 	out = append(out, RunSpec{Profile: "core:rotation-dleq", Params: map[string]int{"rotdleq": 1}})
+	for k := 0; k < 8; k++ {
+		out = append(out, RunSpec{Profile: "core:shared-output-race", Params: map[string]int{"sor": 1, "k": k}})
+	}
 	for k := 0; k < 12; k++ {
 		out = append(out, RunSpec{Profile: "core:rotation-racing-swap", Params: map[string]int{"rotrace": 1, "k": k}})
 	}
@@ -70,6 +73,77 @@ func genDLEQ(a *Scalar, B_, C_ *secp256k1.PublicKey) (string, string) {
 	s.Mul(a)
 	s.Add(r)
 	return hex.EncodeToString(h[:]), scalarHex(&s)
+}
+
+// StepSharedOutputRace: two paid quotes (1 sat and 2 sat), two concurrent mint requests that carry the
+// SAME blinded message under different amounts. Whatever the mint hands out or later returns through
+// restore for that message must be a signature by the key of the (keyset, amount) it names, with a
+// DLEQ proof that verifies under that key.
+func (ww *WW) StepSharedOutputRace(m *MW) {
+	W := ww.W
+	mint := "A"
+	ks := W.ActiveKeyset(mint)
+	ww.rc.Op("shared-output race (amounts 1 and 2)")
+	var q1, q2 *MintQuote
+	a := NewActor(W, m.name("sor"))
+	ww.rc.Quietly(func() {
+		if q1, _ = a.ReqMintQuote(mint, 1, false); q1 != nil {
+			W.LN.PayExternal(q1.Hash)
+		}
+		if q2, _ = a.ReqMintQuote(mint, 2, false); q2 != nil {
+			W.LN.PayExternal(q2.Hash)
+		}
+	})
+	if q1 == nil || q2 == nil {
+		return
+	}
+	o := W.NewOutput(1, ks.ID, "")
+	ww.rc.S.BeginEpisode()
+	for k, q := range []*MintQuote{q1, q2} {
+		k, q := k, q
+		name := fmt.Sprintf("%s.%d", m.name("sor"), k)
+		ww.rc.S.Go(name, W.Ext, true, func() {
+			b := NewActor(W, name)
+			b.Post(mint, "/v1/mint/bolt11", map[string]any{"quote": q.ID, "outputs": []any{map[string]any{"amount": uint64(k + 1), "id": o.ID, "B_": o.B_}}})
+		})
+	}
+	ww.rc.S.Drive(false)
+	ww.rc.S.Probe("c10_shared_output_race")
+	var r *Resp
+	ww.rc.Quietly(func() { r = a.Restore(mint, []*HOutput{o}) })
+	if r == nil || !r.OK() {
+		return
+	}
+	sigs, _ := r.Body["signatures"].([]any)
+	oracle := W.oracleKeysets(mint)
+	for _, sv := range sigs {
+		sm, _ := sv.(map[string]any)
+		id, _ := sm["id"].(string)
+		amtF, _ := sm["amount"].(float64)
+		c_, _ := sm["C_"].(string)
+		d := oracle[id]
+		if d == nil || d.Priv[uint64(amtF)] == nil {
+			continue
+		}
+		k := d.Priv[uint64(amtF)]
+		B_, e1 := parsePoint(o.B_)
+		C_, e2 := parsePoint(c_)
+		if e1 != nil || e2 != nil {
+			continue
+		}
+		if want, _ := mulP(k, B_); want == nil || pointHex(want) != pointHex(C_) {
+			W.Book.Violate("C10.restored_inconsistent", "C_", "restore returns for a message that two racing requests carried a C_ that is not k*B_ for the key of (%s, %d)", id, uint64(amtF))
+			continue
+		}
+		if dq, ok := sm["dleq"].(map[string]any); ok {
+			e, _ := dq["e"].(string)
+			sc, _ := dq["s"].(string)
+			if !hVerifyDLEQ(e, sc, mulG(k), o.B_, c_) || !nut12.VerifyBlindSignatureDLEQ(cashu.DLEQProof{E: e, S: sc}, mulG(k), o.B_, c_) {
+				W.Book.Violate("C10.restored_inconsistent", "dleq", "restore returns for a message that two racing requests carried a DLEQ proof that does not verify under the published key of (%s, %d)", id, uint64(amtF))
+			}
+		}
+		ww.rc.S.Probe("c10_shared_output_restore_checked")
+	}
 }
 
 // MonitorSigs checks every signature the Book has not yet examined with the key oracle and with
@@ -598,6 +672,8 @@ func runC10(rc *RunCtx) {
 				ww.forceSendAll = false
 			}
 			ww.StepReceive()
+		case rc.P("sor", 0) == 1:
+			ww.StepSharedOutputRace(m)
 		case rc.P("rotrace", 0) == 1:
 			if i == 0 {
 				m.StepRotateRuntimeConcurrent()
@@ -616,7 +692,9 @@ func runC10(rc *RunCtx) {
 			}
 			ww.StepReceive()
 		default:
-			switch T.Pick("c10.kind", 6, 3, 2, 1, 1, 2, 1, 1, 1) {
+			switch T.Pick("c10.kind", 6, 3, 2, 1, 1, 2, 1, 1, 1, 1) {
+			case 9:
+				ww.StepSharedOutputRace(m)
 			case 8:
 				// the operator rotates the keyset on the running mint while a swap is in flight: whatever
 				// is signed must be a signature by the key of the keyset the signature names
